@@ -25,6 +25,51 @@ from tlc import MachineryError
 PROP = "C02"
 
 
+def _dedupe_chunk(texts):
+    mods = import_pyrefact()
+    out = []
+    for key, text in texts:
+        try:
+            res = mods["fixes"].remove_duplicate_functions(text, preserve=frozenset())
+        except Exception as exc:  # noqa: BLE001
+            res = f"__raised__ {type(exc).__name__}: {exc}"
+        out.append((key, text, res))
+    return out
+
+
+def alpha_part(rep: Report, mods, t: str, rng: random.Random, runner) -> int:
+    """Alpha.tla: every pair of shape-equal small functions, with the verdict 'same function up to parameter names';
+    the duplicate-function rule may merge a pair only then.  Decided by execution of the program before / after."""
+    import multiprocessing as mp
+    import alpha
+    recs = alpha.cases(rep, t)
+    items = [(f"alpha:{'eq' if r['eq'] else 'ne'}:{i}", alpha.render(r)) for i, r in enumerate(recs)]
+    n = 16
+    with mp.get_context("fork").Pool(n) as pool:
+        outs = [x for part in pool.map(_dedupe_chunk, [items[i::n] for i in range(n)]) for x in part]
+    changed = [(k, text, res) for k, text, res in outs if res != text and not res.startswith("__raised__")]
+    obs_texts = sorted({t_ for _, t_, _ in changed} | {r for _, _, r in changed})
+    obs = dict(zip(obs_texts, runner.observe_many(obs_texts)))
+    merged_eq = merged_ne = 0
+    for key, text, res in changed:
+        if key.startswith("alpha:eq"):
+            merged_eq += 1
+        else:
+            merged_ne += 1
+        if obs[text][0] == "ok" and obs[res] != obs[text]:
+            kf, sh = pipecheck.known_by_signature(rep, "fixes.remove_duplicate_functions", text, res, text)
+            case = {"input_id": key, "program": text, "rule": "fixes.remove_duplicate_functions", "output": res,
+                    "obs_before": obs[text], "obs_after": obs[res], "alpha_equivalent": key.startswith("alpha:eq")}
+            if kf:
+                rep.known(kf, {"input_id": key})
+            else:
+                rep.violation("rule fixes.remove_duplicate_functions merged two functions that are not the same function up to parameter names: "
+                              f"obs {obs[text][1][:40]!r} -> {obs[res][0]}/{obs[res][1][:40]!r}; input {key}", case)
+    rep.coverage["alpha_pairs"] = {"shape_equal_pairs": len(recs), "alpha_equivalent": sum(1 for r in recs if r["eq"]),
+                                   "merged_equivalent": merged_eq, "merged_not_equivalent": merged_ne}
+    return len(recs)
+
+
 def main(argv=None) -> int:
     rep = Report(PROP, "exploration")
     mods = import_pyrefact()
@@ -94,10 +139,11 @@ def main(argv=None) -> int:
                 continue
             rep.violation(f"rule {rule} changed behaviour ({'/'.join(sorted(bad))}): {sh['old_src'][:90]!r} -> {sh['new_src'][:90]!r}; "
                           f"obs {base[0]}/{base[1][:40]!r} -> {after[0]}/{after[1][:40]!r}; input {key}", case)
+        n_alpha = alpha_part(rep, mods, t, rng, runner)
     finally:
         runner.close()
     rules = isolated.rule_names()
-    rep.coverage["evaluations"] = len(progs) * len(rules)
+    rep.coverage["evaluations"] = len(progs) * len(rules) + n_alpha
     rep.coverage["distinct_nontrivial"] = len(firings)
     rep.coverage["traces_validated_against_impl"] = len(firings)
     rep.coverage["rule_firings"] = dict(sorted(fired.items()))
